@@ -1509,7 +1509,7 @@ method or constructor of some type."""
             while parent and (not parent.gi_name == 'GObject.Object'):
                 if parent == target:
                     break
-                if parent.parent_type:
+                if isinstance(parent, ast.Class) and parent.parent_type:
                     parent = self._transformer.lookup_typenode(parent.parent_type)
                 else:
                     parent = None
